@@ -548,6 +548,9 @@ class Data:
         ar_max = array.max()
         ar_min = array.min()
         actual_range = np.array([ar_min, ar_max])
+        #  The integer types are rescaled on a floating point copy
+        if var_type not in ('float64', 'float32'):
+            array = array.astype('float64')
 
         if var_type == 'float64':
             scaled_array = array.astype('float64')
